@@ -897,6 +897,9 @@ func (engine *Engine) readConnBlocking(conn *Conn, parser *Parser, decrease func
 		readBufferPool.Free(pbuf)
 		if !conn.Trasfered {
 			parserCloser.CloseAndClean(err)
+			// the read loop is over (keepalive timeout, peer closed, parse
+			// error), close the underlayer conn as the TLS loop does.
+			_ = conn.Close()
 		}
 		engine.mux.Lock()
 		switch vt := conn.Conn.(type) {
@@ -915,7 +918,10 @@ func (engine *Engine) readConnBlocking(conn *Conn, parser *Parser, decrease func
 		if err != nil {
 			return
 		}
-		_ = parserCloser.Parse((*pbuf)[:n])
+		err = parserCloser.Parse((*pbuf)[:n])
+		if err != nil {
+			return
+		}
 		if conn.Trasfered {
 			parser.onClose = nil
 			parser.CloseAndClean(nil)
